@@ -139,3 +139,10 @@ func ghostLevelSorted(ll *LevelList, i int) bool {
 //@     invariant newest != nil ==> forall(0, idx_, func(p int) bool { return indexof(ll.levels[0].tables.l, seqat(coll_, p)) >= 0 })
 //@     invariant newest != nil ==> forall(0, idx_, func(p int) bool { return ghostTableHas(seqat(coll_, p), key) ==>
 //@               kv.ghostSeqNum(newest) >= kv.ghostSeqNum(ghostTableEntry(seqat(coll_, p), key)) })
+
+// ---- table file cleanup (C09): the garbage-collection callback of a table
+// loaded from a checkpoint document deletes the file only after the ownership
+// policy answered (true, nil).
+//@ func NewTableFromDocument$0
+//@   property C09
+//@   atcall deleteFunc: canDelete && err == nil
